@@ -150,6 +150,7 @@ type replay struct {
 
 var (
 	out05, out06 *bufio.Writer
+	do05, do06   bool
 )
 
 func emit(w *bufio.Writer, ev gate.Event) {
@@ -168,6 +169,8 @@ func main() {
 	secring := flag.String("secring", "", "test secret key ring")
 	kvKind := flag.String("kv", "memory", "memory | leveldb | kv | sqlite")
 	listShapes := flag.Bool("shapes", false, "print the shapes (sizes) as JSON and exit")
+	flag.BoolVar(&do05, "do05", true, "record the C05 trace (state after every step)")
+	flag.BoolVar(&do06, "do06", true, "record the C06 trace (live vs reloaded after every step)")
 	scratch := flag.String("scratch", "", "scratch dir")
 	flag.Parse()
 	log.SetOutput(io.Discard)
@@ -302,10 +305,13 @@ func run(s *shape, r *replay, n int, kvKind, scratch string) error {
 		}
 		delivered[id] = true
 		e.Await()
-		if i < len(r.Order)-1 {
+		if do05 && i < len(r.Order)-1 {
 			if err := project(s, e, delivered, false); err != nil {
 				return err
 			}
+		}
+		if !do06 {
+			continue
 		}
 		// C06: live vs fresh over the same rows, after every step
 		fresh, err := idx.New(e.KV, e.Src, true)
@@ -335,6 +341,9 @@ func run(s *shape, r *replay, n int, kvKind, scratch string) error {
 			"ndiff": len(diff), "classes": cls, "diff": firstN(diff, 6), "queries": len(live)})
 	}
 	e.Await()
+	if !do05 {
+		return nil
+	}
 	return project(s, e, delivered, true)
 }
 
